@@ -186,7 +186,7 @@ func c07(r *core.Run) {
 	r.Floor("C07.ONEBATCH", "mutating functions of the embedded store", nMut, 6)
 
 	c07Schema(r)
-	c07JSONSave(r)
+	c07JSONSave(r, "C07.JSONSAVE")
 }
 
 func c07Rebuild(r *core.Run, fn *ssa.Function, nest []*ssa.Function, commits, directs, batchOps []ssa.CallInstruction) {
@@ -352,7 +352,7 @@ func c07Schema(r *core.Run) {
 	r.Floor("C07.SCHEMA", "schema-version write on the open path", n, 1)
 }
 
-func c07JSONSave(r *core.Run) {
+func c07JSONSave(r *core.Run, rule string) {
 	p := r.P
 	n := 0
 	for _, fn := range p.FuncsIn("pkg/storage/jsondb") {
@@ -375,13 +375,13 @@ func c07JSONSave(r *core.Run) {
 				return out
 			}
 			temps := find("os.CreateTemp")
-			if !r.Check(len(temps) == 1, "C07.JSONSAVE", fnm+"#temp-file", rn.Pos(), "one temp file", fmt.Sprintf("%d os.CreateTemp calls", len(temps))) {
+			if !r.Check(len(temps) == 1, rule, fnm+"#temp-file", rn.Pos(), "one temp file", fmt.Sprintf("%d os.CreateTemp calls", len(temps))) {
 				continue
 			}
 			tmp := temps[0]
 			// same directory
 			wantDir := "path/filepath.Dir(" + core.Canon(target) + ")"
-			r.Check(core.Canon(tmp.Call.Args[0]) == wantDir, "C07.JSONSAVE", fnm+"#temp-in-target-dir", tmp.Pos(), "temp file is created in the target's directory", "temp file is created in "+core.Canon(tmp.Call.Args[0])+", not in "+wantDir+": the rename is not atomic across file systems")
+			r.Check(core.Canon(tmp.Call.Args[0]) == wantDir, rule, fnm+"#temp-in-target-dir", tmp.Pos(), "temp file is created in the target's directory", "temp file is created in "+core.Canon(tmp.Call.Args[0])+", not in "+wantDir+": the rename is not atomic across file systems")
 			// rename source is the temp file's name
 			isTmpFile := func(v ssa.Value) bool {
 				ex, ok := v.(*ssa.Extract)
@@ -391,7 +391,7 @@ func c07JSONSave(r *core.Run) {
 			if c, ok := callTo(src, "(*os.File).Name"); ok && isTmpFile(c.Call.Args[0]) {
 				srcOK = true
 			}
-			r.Check(srcOK, "C07.JSONSAVE", fnm+"#rename-source", rn.Pos(), "rename source is the temp file", "rename source is "+core.Canon(src))
+			r.Check(srcOK, rule, fnm+"#rename-source", rn.Pos(), "rename source is the temp file", "rename source is "+core.Canon(src))
 			// ordered, checked steps
 			steps := []struct{ name, label string }{
 				{"(*encoding/json.Encoder).Encode", "encode"},
@@ -411,26 +411,26 @@ func c07JSONSave(r *core.Run) {
 					}
 				}
 				if chosen == nil {
-					r.Fail("C07.JSONSAVE", fnm+"#"+st.label+"-before-rename", rn.Pos(), "no "+st.label+" of the temp file on every path to the rename")
+					r.Fail(rule, fnm+"#"+st.label+"-before-rename", rn.Pos(), "no "+st.label+" of the temp file on every path to the rename")
 					continue
 				}
 				cv := ssa.Value(chosen)
 				ok1, n1, p1 := core.MustPass(fn, rn.Block(), core.NilGuard(func(x ssa.Value) bool { return x == cv }))
-				r.Check(ok1 && n1 > 0, "C07.JSONSAVE", fnm+"#"+st.label+"-checked", chosen.Pos(), st.label+" succeeded on every path to the rename", "the rename is reachable although "+st.label+" failed or was not checked ("+core.FmtPath(p1)+")")
-				r.Check(core.Precedes(prev, chosen), "C07.JSONSAVE", fnm+"#"+st.label+"-order", chosen.Pos(), st.label+" in order", st.label+" does not follow the previous step on every path")
+				r.Check(ok1 && n1 > 0, rule, fnm+"#"+st.label+"-checked", chosen.Pos(), st.label+" succeeded on every path to the rename", "the rename is reachable although "+st.label+" failed or was not checked ("+core.FmtPath(p1)+")")
+				r.Check(core.Precedes(prev, chosen), rule, fnm+"#"+st.label+"-order", chosen.Pos(), st.label+" in order", st.label+" does not follow the previous step on every path")
 				prev = chosen
 			}
-			r.Check(core.Precedes(prev, rn.(ssa.Instruction)), "C07.JSONSAVE", fnm+"#rename-last", rn.Pos(), "rename after close", "rename does not follow close")
+			r.Check(core.Precedes(prev, rn.(ssa.Instruction)), rule, fnm+"#rename-last", rn.Pos(), "rename after close", "rename does not follow close")
 			// nothing else touches the target before the rename
 			core.InstrsOf(fn, func(in ssa.Instruction) {
 				if core.IsCallTo(in, "os.WriteFile", "os.Create", "os.OpenFile", "os.Remove", "os.Truncate") {
 					c := core.CallOf(in)
 					if core.Canon(c.Args[0]) == core.Canon(target) {
-						r.Fail("C07.JSONSAVE", fnm+"#target-untouched", in.Pos(), core.CalleeName(c)+" touches the target file directly")
+						r.Fail(rule, fnm+"#target-untouched", in.Pos(), core.CalleeName(c)+" touches the target file directly")
 					}
 				}
 			})
 		}
 	}
-	r.Floor("C07.JSONSAVE", "os.Rename onto the JSON database path", n, 1)
+	r.Floor(rule, "os.Rename onto the JSON database path", n, 1)
 }
